@@ -447,3 +447,16 @@
                (<= 0 j) (< j n))
           (>= (psum L lo W wo wn A n) (pterm (select L (+ lo j)) (ite wn 1 (select W (+ wo j))) A))))
      :pattern ((lem_psum_elem L lo W wo wn A n j)))))
+; changing one entry of a pbSet row changes the sum by the difference of the two terms
+;@lemma vsum_update
+(assert (forall ((R (Array Int Int)) (j Int) (v Int) (o Int) (A (Array Int Bool)) (n Int))
+  (! (=> (and (<= o j) (< j (+ o n)))
+         (= (vsum (store R j v) o A n)
+            (+ (vsum R o A n) (- (vterm v (select A (- j o))) (vterm (select R j) (select A (- j o)))))))
+     :pattern ((vsum (store R j v) o A n)))))
+; a row of zeros sums to zero
+;@lemma vsum_zero
+(assert (forall ((R (Array Int Int)) (o Int) (A (Array Int Bool)) (n Int))
+  (! (=> (forall ((j Int)) (! (=> (and (<= o j) (< j (+ o n))) (= (select R j) 0)) :pattern ((select R j))))
+         (= (vsum R o A n) 0))
+     :pattern ((vsum R o A n)))))
